@@ -7,7 +7,10 @@ use crate::{components::initialization::functional::{random_bitstring, random_pe
 // @native-harness
 pub fn c14_native_initialisation() {
     let mut cases = 0u64;
-    let domains: [&[std::ops::Range<f64>]; 4] = [&[], &[0.0..1.0], &[-5.0..5.0, 2.0..2.5], &[-1.0e6..-1.0e3, 0.0..1.0e-9, -0.5..0.5]];
+    // (the last two: domains only 1-3 representable numbers wide, where an implementation that samples the CLOSED interval
+    //  shows the upper bound itself; a problem's domain is a `Range<f64>`, whose own membership test is half-open)
+    let domains: [&[std::ops::Range<f64>]; 6] = [&[], &[0.0..1.0], &[-5.0..5.0, 2.0..2.5], &[-1.0e6..-1.0e3, 0.0..1.0e-9, -0.5..0.5],
+        &[1.0..1.0000000000000002, 1.0e16..1.0000000000000004e16, -1.0..-0.9999999999999998], &[5.0e-324..1.5e-323, -4.0..-3.9999999999999996]];
     for seed in 0..40u64 {
         let mut rng = Random::new(seed);
         for size in 0..=4usize {
@@ -17,7 +20,7 @@ pub fn c14_native_initialisation() {
                 for s in &pop {
                     if s.len() != dom.len() { panic!("random_spread: wrong dimension"); }
                     for (x, r) in s.iter().zip(dom.iter()) {
-                        if !(*x >= r.start && *x <= r.end) { eprintln!("COUNTEREXAMPLE seed={seed} x={x} domain={r:?}"); panic!("random_spread: coordinate outside its domain"); }
+                        if !r.contains(x) { eprintln!("COUNTEREXAMPLE seed={seed} x={x:e} domain={r:?}"); panic!("random_spread: coordinate outside its domain"); }
                     }
                 }
                 cases += 1;
